@@ -144,6 +144,19 @@ Hashable(x) ==
     [] x.k = "inst"  -> \A i \in DOMAIN x.fs : Hashable(x.fs[i][2])
     [] OTHER -> TRUE
 
+(* Wire form -> TLA+ values.  In JSON (and inside type descriptors: default values) sets are   *)
+(* written as sequences; Dec turns them into TLA+ sets so that equality is structural.         *)
+RECURSIVE Dec(_)
+Dec(x) ==
+  CASE x.k = "seq"  -> [x EXCEPT !.xs = [i \in DOMAIN x.xs |-> Dec(x.xs[i])]]
+    [] x.k = "map"  -> [x EXCEPT !.ps = [i \in DOMAIN x.ps |-> <<Dec(x.ps[i][1]), Dec(x.ps[i][2])>>]]
+    [] x.k = "set"  -> [x EXCEPT !.es = {Dec(x.es[i]) : i \in DOMAIN x.es}]
+    [] x.k = "sub"  -> [x EXCEPT !.x = Dec(x.x)]
+    [] x.k = "inst" -> [x EXCEPT !.fs = [i \in DOMAIN x.fs |-> <<x.fs[i][1], Dec(x.fs[i][2])>>],
+                                 !.set = Range(x.set)]
+    [] OTHER -> x
+
+
 (* three-valued verdicts and their Kleene conjunction *)
 KAnd(a, b) == IF a = "R" \/ b = "R" THEN "R" ELSE IF a = "D" \/ b = "D" THEN "D" ELSE "A"
 KSeq(vs)   == IF \E i \in DOMAIN vs : vs[i] = "R" THEN "R"
